@@ -107,6 +107,19 @@ func (sdc *signingDoneCheck) listen(
 					continue
 				}
 
+				// Only members participating in the given attempt are
+				// expected to confirm it.
+				isAttemptMember := false
+				for _, attemptMemberIndex := range attemptMembersIndexes {
+					if attemptMemberIndex == doneMessage.senderID {
+						isAttemptMember = true
+						break
+					}
+				}
+				if !isAttemptMember {
+					continue
+				}
+
 				if !sdc.isValidDoneMessage(
 					doneMessage,
 					netMessage.SenderPublicKey(),
